@@ -134,7 +134,14 @@ pub fn stage(id: &str, ctx: &Ctx) -> ScnResult {
         ("C15", Tier::Quick) => (0..4)
             .map(|v| (vec!["c15".to_string(), ((ctx.seed as usize + v * 5) % 23).to_string()], 4))
             .collect(),
-        ("C15", Tier::Thorough) => (0..23).map(|v| (vec!["c15".to_string(), v.to_string()], 8)).collect(),
+        ("C15", Tier::Thorough) => {
+            let mut b: Vec<(Vec<String>, u64)> =
+                (0..23).map(|v| (vec!["c15".to_string(), v.to_string()], 8)).collect();
+            // four threads deep inside the recursive walker at the same time
+            b.push((vec!["c15deep".to_string(), "14".to_string()], 4));
+            b.push((vec!["c15deep".to_string(), "20".to_string()], 4));
+            b
+        }
         _ => vec![],
     };
     // the native twin first (also builds it), then the Miri batches, a few at a time
